@@ -257,8 +257,7 @@ def main(tier, replay=None):
     for p in engine.run_shards(_shard, nshards, common.verif_seed(), tier=tier, n_cases=total // nshards):
         rep.merge(p)
     runner = _Runner(Reporter(PID, tier, RULE))
-    for bucket, b in rep.buckets.items():
-        if b["case"] and b["case"].get("ops"):
-            b["case"] = engine.minimise(runner, b["case"], bucket, budget=60)
+    for bucket in list(rep.buckets):
+        engine.minimise_bucket(runner, rep, bucket, budget=60)
     docs.cleanup()
     return rep.finish()
